@@ -115,4 +115,4 @@ def to_trace(sc, out):
 def accept_traces(traces):
     """traces: list of (pids, events) -> list of driver answers"""
     reqs = ["RT " + json.dumps({"pids": p, "events": ev}) for p, ev in traces]
-    return lean.drive(reqs)
+    return lean.drive(reqs, jobs=8)
